@@ -214,11 +214,18 @@ def check_san_reader(ctx, f, L):
             continue
         n_ok += 1
         # the only source of a successful result: ok_or(result slot after generation)
-        ok = r[0] == "call" and r[1].endswith("::ok_or") and len(gens) == 1
+        slot = None
+        if r[0] == "call" and r[1].endswith("::ok_or"):
+            slot = r[2][0]
+        elif r[0] == "agg" and r[2] == "Ok":
+            # the same written out: `match slot { Some(m) => Ok(m), None => Err(..) }`
+            pay = dict(r[4]).get("0")
+            if pay is not None and pay[0] == "field" and pay[2] == "0" and pay[1][0] == "downcast" and pay[1][2] == "Some":
+                slot = pay[1][1]
+        ok = slot is not None and len(gens) == 1
         if not ctx.check(ok, "san-read:result-after-generation", "a non-error result is not `slot.ok_or(..)` read after exactly one move generation on the board: %s" % sym.show(r)[:120], where):
             continue
         g = gens[0]
-        slot = r[2][0]
         ctx.check(slot[0] == "field" and slot[1][0] == "post" and slot[1][2] == g.idx or (slot[0] == "post" and slot[2] == g.idx), "san-read:slot-written-by-listener",
                   "the returned move is not the slot the generation listener writes", where, sample={"result": "mv.ok_or(..) after generate_moves_for"} if n_ok == 1 else None)
         ctx.check(g.args[0] == ("ptr", ("P", "board"), (), False), "san-read:same-board", "moves are generated on a different board", where)
